@@ -94,9 +94,8 @@ class ElectronicControlUnit:
         :param callback:
             The callback to be removed from the timer event list
         """
-        for event in self._timer_events:
-            if event['callback'] == callback:
-                self._timer_events.remove( event )
+        # filter in place: removing while iterating skipped every second duplicate
+        self._timer_events[:] = [event for event in self._timer_events if event['callback'] != callback]
         self._job_thread_wakeup()
 
     def connect(self, *args, **kwargs):
@@ -309,7 +308,11 @@ class ElectronicControlUnit:
             next_wakeup = self.j1939_dll.async_job_thread(now)
 
             # check timer events
-            for event in self._timer_events:
+            # iterate over a snapshot: callbacks may add or remove timer events
+            for event in list(self._timer_events):
+                if not any(event is e for e in self._timer_events):
+                    # removed in the meantime
+                    continue
                 if event['deadline'] > now:
                     if next_wakeup > event['deadline']:
                         next_wakeup = event['deadline']
@@ -325,8 +328,8 @@ class ElectronicControlUnit:
                         if next_wakeup > event['deadline']:
                             next_wakeup = event['deadline']
                     else:
-                        # remove from list
-                        self._timer_events.remove( event )
+                        # remove from list (if the callback has not already done so)
+                        self._timer_events[:] = [e for e in self._timer_events if e is not event]
 
             time_to_sleep = next_wakeup - time.time()
             if time_to_sleep > 0:
